@@ -4,7 +4,7 @@ from ..modules import REGS, REGHW, REGVARS
 
 
 def run(ctx):
-    if not ctx.build_harness(["c20.go", "c20ctx.go", "c20vars.go", "gen_reghw.go"]):
+    if not ctx.build_harness(["c20.go", "c20ctx.go", "c20proc.go", "c20vars.go", "gen_reghw.go"]):
         return
     # Gen.Regs from the compiled reg package; Oracle.RegHW measured now: go tool asm + three decoders
     # + execution of every register write on the host CPU (throw-away module under .work/C20/reghw/probe)
@@ -15,10 +15,10 @@ def run(ctx):
     # the driver (model, tables, acceptors) must build even when a table theorem breaks
     if not ctx.build_driver():
         return
-    if ctx.lake_each(["AvoVerif.Props.C20", "AvoVerif.Props.C20Ctx"]):
+    if ctx.lake_each(["AvoVerif.Props.C20", "AvoVerif.Props.C20Ctx", "AvoVerif.Props.C20Proc"]):
         ctx.audit("C20")
     if ctx.tier == "thorough":
-        ctx.leanchecker(["AvoVerif.Props.C20", "AvoVerif.Props.C20Ctx"])
+        ctx.leanchecker(["AvoVerif.Props.C20", "AvoVerif.Props.C20Ctx", "AvoVerif.Props.C20Proc"])
     nt = lambda req, resp: not ((req.startswith("spec ") and int(req.split()[1]) >= 128) or req.startswith("id ")
                                 or (req.startswith("lookup") and resp == "nil"))
     ctx.run_corpus("c20", nontrivial=nt)
@@ -45,6 +45,12 @@ def run(ctx):
               # histories have registers of one kind SEEN on both sides of that call (so no call can drop out of the sweep unnoticed)
               "ctxh": 600, "accept-ctxfresh": 600, "ctxh:scripted": 380, "ctxh:random-route-m": 80, "ctxh:random-route-g": 80,
               "ctxh:random-route-x": 180, "ctxh:dereference-seen": 100, "ctxh:with-errors": 200, "ctxh:300-or-more-registers": 8}
+    # the table after the process was used (c20proc.go): digest checks after every step, the full stream after the scripted part
+    # and at the end, and what the steps really did (a compile that allocated registers of each kind, allocators that ran, …)
+    floors.update({"tblh": 75, "after": 8000, "accept-after": 4500, "proc:full-stream-after-history": 2, "proc:main-ok:gp": 1,
+                   "proc:allocated-ok:1": 3, "proc:allocated-ok:2": 3, "proc:allocated-ok:3": 3, "proc:mutated-accessor-result": 24,
+                   "proc:random-operations": 500})
+    floors.update({"proc:compiled-ok:" + shape: 1 for shape in ("gp", "vec", "k", "all", "sp", "h8", "k0")})
     floors.update({"ctxh:straddle:" + name: 16 for name in (
         "Function", "TEXT", "Implement", "SignatureExpr", "Signature", "Attributes", "Doc", "Pragma", "Label", "Comment", "AllocLocal",
         "Load", "Store", "ParamIndex", "Instr", "StaticGlobal", "AddDatum", "ConstData", "ConstraintExpr", "Result", "Compile", "Main", "NewContext", "NewCollection")})
@@ -95,6 +101,17 @@ def run(ctx):
         "caller sees (kind, rank of the id within the kind, mask) with the state machine of Model/RegCtx.lean (whose only effect on the "
         "collection is Coll.alloc) and acceptor CtxFreshOK on the implementation's own ids per kind (theorems ctx_fresh, ctx_fresh_ok, "
         "ctx_others_irrelevant for ALL histories). "
+        "AFTER THE PROCESS WAS USED (tblh / after / accept-after, LAST section of a run): all of the above table / API lines (rows as the families "
+        "list them then, every conversion of every register of the clean snapshot incl. the restricted SP views and K0, LookupID, "
+        "LookupPhysical grid, virtual -> physical views, with their acceptors) are recomputed after EVERY step of a process history — "
+        "functions built through build.Context and compiled with pass.Compile / build.Main using GP / vector / opmask registers, restricted "
+        "registers as operands, 8H registers, register pressure; allocators created and run directly (NewAllocatorForKind, "
+        "NewAllocator(Family.Registers()), NewAllocator(own slice), SetPriority, Add, AddInterference, Allocate; kinds 0-3 and an unknown "
+        "one); the slice Family.Registers() returns sorted / reversed / overwritten / truncated+appended / nilled / swapped by the caller; "
+        "Collections, Contexts, shuffled queries; 24 (thorough 120) chunks of 25 (40) random such operations; the Context histories of the "
+        "run — and the digest is compared with the clean one (tblh, model answer `same`: theorem proc_table_const); the full stream is emitted "
+        "again, wrapped with the history, after the scripted part, at the end, and at once when a digest differs, so the exact model and "
+        "the acceptors against the measured oracle judge the table as it is THEN (theorems proc_views_exact, proc_phys_as). "
         "GENERATED (-n): conversion chains of length 2-5 on physical and virtual registers, mixed allocation "
         "histories, malformed/random ids, kinds, indexes and specs for the lookups and the virtual constructors. Exact comparison with the Lean model "
         "for everything the API pins down; acceptors (accept-reg/-var/-ident/-as/-lookup/-lookup-virtual/-lookup-junk/-vas/-vnew/-vlook/-vlookdflt/-ctor/"
@@ -134,6 +151,13 @@ def run(ctx):
         "collection is the MODEL (Model/RegCtx.lean), tied to the code by the history streams only (a call the generator does not know — a new "
         "Context method — is outside it until added to c20CtxOthers); registers of two different Contexts may share ids by design (each has its "
         "own collection) and are not compared",
+    ]
+    ctx.assumptions += [
+        "the register table is package-level state of the library; that no public API use changes it is the MODEL (Model/RegProc.lean, "
+        "proc_table_const — trivial there), tied to the code by re-evaluating the exhaustive stream after generated process histories in "
+        "ONE process (sequential; no concurrent use). A caller that mutates the slice returned by Family.Registers() is part of those "
+        "histories: an accessor handing out the family's own backing array is reported once a caller writes to it. Writing to the exported "
+        "variables themselves (reg.Families[i] = nil, reg.RSP = …) is not public API USE and is not generated",
     ]
     ctx.trusted += [
         "Oracle.regHW: go tool asm + go tool objdump (instruction bytes), decoders (own prefix/ModRM field extraction, binutils objdump, "
